@@ -3,6 +3,7 @@ CONSTANTS
   MaxLen = 6
   ZeroEof = FALSE
   Quits = {0, 1, 2}
+  Socks = {TRUE, FALSE}
   Filters = {7}
 INVARIANT InvNothingLeft
 INVARIANT InvSlices
